@@ -49,3 +49,16 @@ package ch
 //@ contract Dial(ctx, opt) (c, err) props(C11,C13)
 //@   ensures err == nil ==> c != nil
 //@   ensures err != nil ==> c == nil
+
+//@ import atomic sync/atomic
+//@ import context context
+
+//@ -- the cancel-watch goroutine of Do: when the query's context ended and no server exception was
+//@ -- received, it cancels the query (Cancel packet, best effort) and closes the connection, and
+//@ -- reports an error; otherwise it does nothing.
+//@ contract (c *Client) Do$6() (err) props(C04,C10)
+//@   requires *c != nil && *ctx != nil
+//@   modifies all(*c), ctx.cancelled
+//@   ensures ctx.cancelled && !gotException.val ==> c.closed && err != nil {cancelled-closes-and-fails}
+//@   ensures err != nil ==> c.closed {error-means-closed}
+//@   ensures !ctx.cancelled ==> err == nil {no-cancel-no-error}
